@@ -11,7 +11,7 @@
     (mode) == CO_OPERATIONAL ? (CO_PDO_ALLOWED | CO_SDO_ALLOWED | CO_SYNC_ALLOWED | CO_TIME_ALLOWED | CO_EMCY_ALLOWED | CO_NMT_ALLOWED) : \
     (mode) == CO_STOP        ? CO_NMT_ALLOWED : 0))
 /* the gating mask always reflects the state */
-#define WF_NMT() (V_NODE.Nmt.Mode < CO_MODE_NUM && V_NODE.Nmt.Allowed == NMT_ALLOWED_OF(V_NODE.Nmt.Mode))
+#define WF_NMT() ((unsigned)V_NODE.Nmt.Mode < CO_MODE_NUM && V_NODE.Nmt.Allowed == NMT_ALLOWED_OF(V_NODE.Nmt.Mode))
 
 extern uint32_t G_PDOINIT_N;     /* ghost: number of (COTPdoInit;CORPdoInit) activations */
 void COTPdoInit(CO_TPDO *pdo, struct CO_NODE_T *node)
@@ -23,7 +23,7 @@ __CPROVER_requires(pdo == V_NODE.RPdo && node == &V_NODE)
 __CPROVER_assigns(V_NODE.RPdo, V_NODE.Sync, V_NODE.Error);
 
 void CONmtSetMode(CO_NMT *nmt, CO_MODE mode)
-__CPROVER_requires(nmt == &V_NODE.Nmt && mode < CO_MODE_NUM)
+__CPROVER_requires(nmt == &V_NODE.Nmt && (unsigned)mode < CO_MODE_NUM)
 __CPROVER_ensures(V_NODE.Nmt.Mode == mode && V_NODE.Nmt.Allowed == NMT_ALLOWED_OF(mode))
 /* the application is told exactly when the state changes; PDOs are (re)activated exactly on entering OPERATIONAL */
 __CPROVER_ensures(G_MODECHG_N == __CPROVER_old(G_MODECHG_N) + (__CPROVER_old(V_NODE.Nmt.Mode) != mode ? 1 : 0))
@@ -42,3 +42,71 @@ CO_MODE CONmtGetMode(CO_NMT *nmt)
 __CPROVER_requires(nmt == &V_NODE.Nmt)
 __CPROVER_ensures(__CPROVER_return_value == V_NODE.Nmt.Mode)
 __CPROVER_assigns();
+
+/* ---- CONmtReset: interface contract (proved under C20, group nmt_reset) ----
+ * reset application (129) / communication (130): the node passes through INIT and boots up again:
+ * exactly one boot-up frame if it was not already initialising */
+extern uint32_t G_RESET_N_NODE, G_RESET_N_COM;   /* ghost: resets performed by type */
+#define BOOTUP_FRAME(f) ((f).Identifier == 0x700u + V_NODE.NodeId && (f).DLC == 1 && (f).Data[0] == 0)
+void CONmtReset(CO_NMT *nmt, CO_NMT_RESET type)
+__CPROVER_requires(nmt == &V_NODE.Nmt && WF_NMT())
+__CPROVER_ensures(WF_NMT())
+__CPROVER_ensures((type == CO_RESET_NODE || type == CO_RESET_COM) ==>
+    (V_NODE.Nmt.Mode == (__CPROVER_old(V_NODE.Nmt.Mode) == CO_INIT ? CO_INIT : CO_PREOP) &&
+     G_TX_N == __CPROVER_old(G_TX_N) + (__CPROVER_old(V_NODE.Nmt.Mode) == CO_INIT ? 0 : 1) &&
+     (__CPROVER_old(V_NODE.Nmt.Mode) != CO_INIT ==> BOOTUP_FRAME(G_TX_LAST))))
+__CPROVER_ensures(G_RESET_N_NODE == __CPROVER_old(G_RESET_N_NODE) + (type == CO_RESET_NODE ? 1 : 0))
+__CPROVER_ensures(G_RESET_N_COM == __CPROVER_old(G_RESET_N_COM) + (type == CO_RESET_COM ? 1 : 0))
+__CPROVER_assigns(__CPROVER_object_whole(&V_NODE), __CPROVER_object_whole(V_SDOBUF_P), G_TX_N, G_TX_LAST, G_TX_K, G_MODECHG_N, G_MODECHG_LAST, G_CANCTL_N,
+                  G_TMR_STATE, G_TMR_DELETE_N, G_TMR_LAST_DEL, G_TMR_WATCH_DEL_N, G_TYPE_STATE, G_RESET_N_NODE, G_RESET_N_COM, G_PDOINIT_N);
+
+/* ---- CONmtBootup: boot-up only from INIT, exactly one frame 700h+id / 00h ---- */
+void CONmtBootup(CO_NMT *nmt)
+__CPROVER_requires(nmt == &V_NODE.Nmt && WF_NMT())
+__CPROVER_ensures(WF_NMT())
+__CPROVER_ensures(__CPROVER_old(V_NODE.Nmt.Mode) == CO_INIT
+    ? (V_NODE.Nmt.Mode == CO_PREOP && G_TX_N == __CPROVER_old(G_TX_N) + 1 && BOOTUP_FRAME(G_TX_LAST) && G_MODECHG_N == __CPROVER_old(G_MODECHG_N) + 1)
+    : (V_NODE.Nmt.Mode == __CPROVER_old(V_NODE.Nmt.Mode) && G_TX_N == __CPROVER_old(G_TX_N) && G_MODECHG_N == __CPROVER_old(G_MODECHG_N)))
+__CPROVER_assigns(V_NODE.Nmt.Mode, V_NODE.Nmt.Allowed, G_MODECHG_N, G_MODECHG_LAST, G_TX_N, G_TX_LAST, G_TX_K, V_NODE.Error);
+
+/* ---- CONmtCheck: the CiA 301 slave state machine, one received frame ---- */
+#define NMT_ADDRESSED() (__CPROVER_old(V_FRM.Data[1]) == V_NODE_ID0 || __CPROVER_old(V_FRM.Data[1]) == 0)
+#define V_NODE_ID0 (__CPROVER_old(V_NODE.NodeId))
+#define NMT_CS() (__CPROVER_old(V_FRM.Data[0]))
+#define NMT_UNCHANGED() (V_NODE.Nmt.Mode == __CPROVER_old(V_NODE.Nmt.Mode) && V_NODE.Nmt.Allowed == __CPROVER_old(V_NODE.Nmt.Allowed) && \
+    G_MODECHG_N == __CPROVER_old(G_MODECHG_N) && G_TX_N == __CPROVER_old(G_TX_N) && G_RESETREQ_N == __CPROVER_old(G_RESETREQ_N) && \
+    G_RESET_N_NODE == __CPROVER_old(G_RESET_N_NODE) && G_RESET_N_COM == __CPROVER_old(G_RESET_N_COM))
+int16_t CONmtCheck(CO_NMT *nmt, CO_IF_FRM *frm)
+__CPROVER_requires(nmt == &V_NODE.Nmt && frm == &V_FRM && WF_NMT())
+__CPROVER_ensures(WF_NMT())
+/* only identifier 0 is an NMT command; it is always claimed */
+__CPROVER_ensures(__CPROVER_old(V_FRM.Identifier) != 0 ==> (__CPROVER_return_value == -1 && NMT_UNCHANGED()))
+__CPROVER_ensures(__CPROVER_old(V_FRM.Identifier) == 0 ==> __CPROVER_return_value == 0)
+/* commands for another node id, and unknown command specifiers, change nothing */
+__CPROVER_ensures((__CPROVER_old(V_FRM.Identifier) == 0 && !NMT_ADDRESSED()) ==> NMT_UNCHANGED())
+__CPROVER_ensures((__CPROVER_old(V_FRM.Identifier) == 0 && NMT_CS() != 1 && NMT_CS() != 2 && NMT_CS() != 128 && NMT_CS() != 129 && NMT_CS() != 130) ==> NMT_UNCHANGED())
+/* start / stop / enter pre-operational (node id 0 addresses every node) */
+__CPROVER_ensures((__CPROVER_old(V_FRM.Identifier) == 0 && NMT_ADDRESSED() && (NMT_CS() == 1 || NMT_CS() == 2 || NMT_CS() == 128)) ==>
+    (V_NODE.Nmt.Mode == (NMT_CS() == 1 ? CO_OPERATIONAL : NMT_CS() == 2 ? CO_STOP : CO_PREOP) && G_TX_N == __CPROVER_old(G_TX_N) &&
+     G_RESETREQ_N == __CPROVER_old(G_RESETREQ_N) && G_RESET_N_NODE == __CPROVER_old(G_RESET_N_NODE) && G_RESET_N_COM == __CPROVER_old(G_RESET_N_COM)))
+/* reset node / reset communication: one reset of that type, the application is asked once, boot-up follows */
+__CPROVER_ensures((__CPROVER_old(V_FRM.Identifier) == 0 && NMT_ADDRESSED() && (NMT_CS() == 129 || NMT_CS() == 130)) ==>
+    (G_RESET_N_NODE == __CPROVER_old(G_RESET_N_NODE) + (NMT_CS() == 129 ? 1 : 0) && G_RESET_N_COM == __CPROVER_old(G_RESET_N_COM) + (NMT_CS() == 130 ? 1 : 0) &&
+     G_RESETREQ_N == __CPROVER_old(G_RESETREQ_N) + 1 &&
+     (__CPROVER_old(V_NODE.Nmt.Mode) != CO_INIT ==> (V_NODE.Nmt.Mode == CO_PREOP && G_TX_N == __CPROVER_old(G_TX_N) + 1 && BOOTUP_FRAME(G_TX_LAST)))))
+__CPROVER_assigns(__CPROVER_object_whole(&V_NODE), __CPROVER_object_whole(V_SDOBUF_P), G_TX_N, G_TX_LAST, G_TX_K, G_MODECHG_N, G_MODECHG_LAST, G_CANCTL_N, G_RESETREQ_N,
+                  G_TMR_STATE, G_TMR_CREATE_N, G_TMR_DELETE_N, G_TMR_LAST_DEL, G_TMR_WATCH_DEL_N, G_TYPE_STATE, G_RESET_N_NODE, G_RESET_N_COM, G_PDOINIT_N);
+
+void CONmtInit(CO_NMT *nmt, struct CO_NODE_T *node)
+__CPROVER_requires(nmt == &V_NODE.Nmt && node == &V_NODE && (unsigned)V_NODE.Nmt.Mode < CO_MODE_NUM)
+__CPROVER_ensures(V_NODE.Nmt.Mode == CO_INIT && WF_NMT() && V_NODE.Nmt.HbCons == NULL && V_NODE.Nmt.Node == &V_NODE)
+__CPROVER_ensures(G_TX_N == __CPROVER_old(G_TX_N))
+__CPROVER_assigns(V_NODE.Nmt.Node, V_NODE.Nmt.HbCons, V_NODE.Nmt.Mode, V_NODE.Nmt.Allowed, G_MODECHG_N, G_MODECHG_LAST);
+
+void CONodeStart(CO_NODE *node)
+__CPROVER_requires(node == &V_NODE && WF_NMT())
+__CPROVER_ensures(WF_NMT())
+__CPROVER_ensures(__CPROVER_old(V_NODE.Nmt.Mode) == CO_INIT
+    ? (V_NODE.Nmt.Mode == CO_PREOP && G_TX_N == __CPROVER_old(G_TX_N) + 1 && BOOTUP_FRAME(G_TX_LAST))
+    : (V_NODE.Nmt.Mode == __CPROVER_old(V_NODE.Nmt.Mode) && G_TX_N == __CPROVER_old(G_TX_N)))
+__CPROVER_assigns(V_NODE.Nmt.Mode, V_NODE.Nmt.Allowed, G_MODECHG_N, G_MODECHG_LAST, G_TX_N, G_TX_LAST, G_TX_K, V_NODE.Error);
